@@ -258,6 +258,12 @@ class IOWorker (object):
     Shut down socket
     """
     self._shutdown_send |= send
+    if self._shutdown_send and len(self.send_buf) == 0:
+      # Nothing left to flush first, so _do_send() will never get to it
+      try:
+        self.socket.shutdown(socket.SHUT_WR)
+      except Exception:
+        pass
     #TODO: recv
 
   def __repr__ (self):
